@@ -90,6 +90,10 @@ pub enum Structured {
     BefpShape { index: u32, shares: u16 },
     /// absence proof without / with garbage leaf hash
     LeafHash { len: u8 },
+    /// rewrite the (min, max) namespaces of up to three proof nodes with namespaces taken from a pool made
+    /// of the namespaces occurring in the honest proof plus the all-zero and the parity namespace
+    /// (coordinated multi-node forgeries: inverted ranges, overlapping neighbours, ...)
+    NodeNs { edits: Vec<(u8, u8, u8)> },
 }
 
 #[derive(Clone, Debug, Serialize, Deserialize)]
@@ -146,6 +150,7 @@ fn structured_strategy() -> impl Strategy<Value = Structured> {
         2 => (prop_oneof![Just(0u32), Just(1), Just(7), Just(8), Just(65535), Just(65536), Just(u32::MAX)], prop_oneof![Just(0u16), Just(1), Just(3), Just(4), Just(8), Just(9), Just(300)])
             .prop_map(|(index, shares)| Structured::BefpShape { index, shares }),
         1 => prop_oneof![Just(0u8), Just(1), Just(89), Just(90), Just(91)].prop_map(|len| Structured::LeafHash { len }),
+        5 => prop::collection::vec((any::<u8>(), any::<u8>(), any::<u8>()), 1..=3).prop_map(|edits| Structured::NodeNs { edits }),
     ]
 }
 
@@ -166,6 +171,30 @@ fn tweak_proof(p: &mut RawProof, s: &Structured) {
         }
         Structured::LeafHash { len } => {
             p.leaf_hash = vec![0x11; *len as usize];
+        }
+        Structured::NodeNs { edits } => {
+            let mut pool: Vec<Vec<u8>> = vec![vec![0u8; 29], vec![0xffu8; 29]];
+            for n in &p.nodes {
+                if n.len() >= 58 {
+                    for part in [&n[..29], &n[29..58]] {
+                        if !pool.iter().any(|x| x == part) {
+                            pool.push(part.to_vec());
+                        }
+                    }
+                }
+            }
+            pool.sort();
+            let k = p.nodes.len();
+            for (node, min, max) in edits {
+                if k == 0 {
+                    break;
+                }
+                let n = &mut p.nodes[*node as usize % k];
+                if n.len() >= 58 {
+                    n[..29].copy_from_slice(&pool[*min as usize % pool.len()]);
+                    n[29..58].copy_from_slice(&pool[*max as usize % pool.len()]);
+                }
+            }
         }
         _ => {}
     }
@@ -552,7 +581,7 @@ pub fn run(ctx: &mut Ctx) {
     ctx.assume("harness build has debug-assertions and overflow-checks on (covers 'including in debug builds')");
     let labels: Vec<String> = ALL_TARGETS.iter().map(|t| format!("target-{t:?}")).collect();
     ctx.essential(&labels.iter().map(|s| s.as_str()).collect::<Vec<_>>());
-    ctx.essential(&["structured-ProofNodes", "structured-ProofRange", "structured-RowEmptyHalf", "structured-BefpShape"]);
+    ctx.essential(&["structured-ProofNodes", "structured-ProofRange", "structured-RowEmptyHalf", "structured-BefpShape", "structured-NodeNs"]);
     let cases = ctx.tier.pick(2500, 120000);
     ctx.proptest(
         "mutation-fuzz",
